@@ -3,4 +3,5 @@ EXTENDS PruneObs
 RealSizeOf == [s |-> 308, m |-> 4008, l |-> 30008, x |-> 70008, M |-> 1000008]
 RealConnect == {}
 RealReorg == {}
+RealSwap == {}
 ====
